@@ -2,13 +2,15 @@
 (* C15: the table of input classes and the reaction the PROPERTY demands for each, shared by the design model
    (MCWire) and the judge of real traces (TraceWire).  Row format:
      <<class, phases in which it can be sent, reaction, announced KiB, sent KiB, deviation, effect>>
+   phases:   "PreHs" the node ACCEPTED the connection and reads the remote's handshake request; "OutHs" the node DIALED, has sent its
+             own request and reads the remote's handshake response; "ProtoHs" / "Est" after the handshake of either direction.
    reaction: "close" malformed input - the node must close the connection;  "keep" well-formed - it must keep it;
              "adv" the genuine handshake of the phase;  "any" decodable but absurd - closing or keeping are both fine.
    The class names are instantiated as real bytes by harness/adapters/wire/classes.go.
    Deviation columns: what today's code does instead (panic / stuck = self-deadlock / alloc = unbounded allocation). *)
 EXTENDS Integers, Sequences, FiniteSets
 
-PH == {"ProtoHs"}  ES == {"Est"}  PE == {"ProtoHs", "Est"}  PR == {"PreHs"}
+PH == {"ProtoHs"}  ES == {"Est"}  PE == {"ProtoHs", "Est"}  PR == {"PreHs"}  OU == {"OutHs"}  HS == {"PreHs", "OutHs"}
 R(c, phs, react) == <<c, phs, react, 1, 1, "", "none">>
 RS(c, phs, react, annK, sentK) == <<c, phs, react, annK, sentK, "", "none">>
 RD(c, phs, react, annK, sentK, dev, eff) == <<c, phs, react, annK, sentK, dev, eff>>
@@ -17,16 +19,41 @@ RD(c, phs, react, annK, sentK, dev, eff) == <<c, phs, react, annK, sentK, dev, e
 Codes == {"Status", "GetStatus", "Hash", "Txs", "GetBlocks", "Blocks", "Confirm", "GetConfirms", "Confirms", "DiscReq", "DiscRes", "GetBlocksCL"}
 Bad == {"Empty", "Trunc", "WrongType", "Garbage"}
 
+\* the handshake packet reader (magic, length, body, ECIES) is the same for a request (accepting side) and a response (dialing side)
+HsRows == {
+  R("HsBadMagic", HS, "close"), R("HsZeroLen", HS, "close"),
+  RS("HsOverLen", HS, "close", 1048577, 1),
+  RD("HsHugeLenTrunc", HS, "close", 1048576, 1, "Dev_HandshakeLenLimit1GiB", "alloc"),
+  RD("HsLen64MTrunc", HS, "close", 65536, 1, "Dev_HandshakeLenLimit1GiB", "alloc"),
+  R("HsTruncHeader", HS, "close"), R("HsTruncBody", HS, "close"), R("HsGarbageBody", HS, "close"), R("HsShortBody", HS, "close"),
+  RS("HsMaxLenGarbage", HS, "close", 64, 64),
+  \* correctly framed ECIES messages to the node's key (anyone who knows its public key - its node id - can build them)
+  R("HsEciesBadMac", HS, "close"), R("HsEciesWrongKey", HS, "close"),
+  R("HsEciesEphemOffCurve", HS, "close"), R("HsEciesEphemCompressed", HS, "close"),
+  RD("HsEciesShortEm", HS, "close", 1, 1, "Dev_EciesShortCiphertextPanics", "panic"),   \* valid MAC over an encrypted part of 1..15 bytes
+  R("HsEciesEmptyPlain", HS, "close"), R("HsEciesEmptyList", HS, "close"),
+  R("HsEciesGarbageRlp", HS, "close"), R("HsEciesShortRlp", HS, "close"), R("HsEciesWrongType", HS, "close"),
+  RS("HsEciesBigPlain", HS, "any", 60, 60) }     \* the genuine packet of the phase followed by 60 KiB inside the plaintext
+
+\* the node accepted: content of the handshake REQUEST
 PreRows == {
   R("HsGood", PR, "adv"),
-  R("HsBadMagic", PR, "close"), R("HsZeroLen", PR, "close"),
-  RS("HsOverLen", PR, "close", 1048577, 1),
-  RD("HsHugeLenTrunc", PR, "close", 1048576, 1, "Dev_HandshakeLenLimit1GiB", "alloc"),
-  RD("HsLen64MTrunc", PR, "close", 65536, 1, "Dev_HandshakeLenLimit1GiB", "alloc"),
-  R("HsTruncHeader", PR, "close"), R("HsTruncBody", PR, "close"), R("HsGarbageBody", PR, "close"), R("HsShortBody", PR, "close"),
-  R("HsEciesGarbageRlp", PR, "close"), R("HsEciesShortRlp", PR, "close"), R("HsEciesWrongType", PR, "close"),
-  R("HsZeroRequest", PR, "close"), R("HsBadSig", PR, "close"), R("HsSigBadV", PR, "close"),
-  R("HsPubNotOnCurve", PR, "close"), R("HsSelfId", PR, "close") }
+  R("HsZeroRequest", PR, "close"), R("HsBadSig", PR, "close"), R("HsSigBadV", PR, "close"), R("HsSigZero", PR, "close"),
+  R("HsPubNotOnCurve", PR, "close"), R("HsPubZero", PR, "close"), R("HsPubXOnly", PR, "close"), R("HsSelfId", PR, "close"),
+  \* a decodable request with absurd fields: the node cannot tell (it recovers SOME key from the signature), dropping later is fine
+  R("HsSigOtherToken", PR, "any"), R("HsClaimDeputy", PR, "any"), R("HsZeroNonce", PR, "any"),
+  R("HsNonceShort", PR, "any"), R("HsNonceLong", PR, "any"), R("HsExtraField", PR, "any"), R("HsResponseAsRequest", PR, "any") }
+
+\* the node dialed: content of the handshake RESPONSE
+OutRows == {
+  R("OhsGood", OU, "adv"),
+  \* a well-formed response whose public key is no key: there is no session, the node must drop the connection
+  R("OhsPubOffCurve", OU, "close"), R("OhsPubZero", OU, "close"), R("OhsPubXOnly", OU, "close"), R("OhsPubEmpty", OU, "close"),
+  R("OhsEchoRequest", OU, "close"),
+  \* a usable key with absurd other fields: keeping (with a session the remote may not share) or dropping are both fine
+  R("OhsPubNodeStatic", OU, "any"), R("OhsPubGenerator", OU, "any"), R("OhsZeroNonce", OU, "any"),
+  R("OhsNonceShort", OU, "any"), R("OhsNonceLong", OU, "any"), R("OhsNonceMissing", OU, "any"), R("OhsExtraField", OU, "any"),
+  R("OhsRequestAsResponse", OU, "any") }
 
 \* raw and encrypted frames: the same reader serves the protocol handshake and the established connection
 FrameRows == {
@@ -46,6 +73,7 @@ FrameRows == {
 ProtoRows == {
   R("Phs_Good", PH, "adv"), R("Phs_Higher", PH, "adv"),
   R("Phs_Max", PH, "any"), R("Phs_StaGtCur", PH, "any"), R("Phs_OtherChain", PH, "any"), R("Phs_WrongCode", PH, "any"), R("Phs_Trailing", PH, "any"),
+  R("Phs_VersionZero", PH, "any"), R("Phs_VersionMax", PH, "any"), R("Phs_ZeroHashes", PH, "any"), R("Phs_ExtraField", PH, "any"),
   R("Phs_Empty", PH, "close"), R("Phs_Trunc", PH, "close"), R("Phs_WrongType", PH, "close"), R("Phs_Garbage", PH, "close"),
   \* another message in place of the protocol handshake: a protocol violation, dropping is fine
   R("GetStatus_Good", PH, "any"), R("Blocks_Good", PH, "any"), R("Confirm_Good", PH, "any"), R("Txs_Good", PH, "any") }
@@ -56,28 +84,45 @@ EstRows ==
   \cup {R(c \o "_Trailing", ES, "any") : c \in {"Status", "Txs", "Blocks", "GetBlocks"}}
   \cup {
   R("Phs_Good", ES, "any"), R("Phs_Garbage", ES, "any"),
-  R("Status_Higher", ES, "keep"), R("Status_Max", ES, "any"), R("Status_StaGtCur", ES, "any"),
-  R("Hash_Max", ES, "any"), R("Hash_Known", ES, "keep"),
+  R("Status_Higher", ES, "keep"), R("Status_Max", ES, "any"), R("Status_StaGtCur", ES, "any"), R("Status_ZeroHashes", ES, "any"),
+  R("Hash_Max", ES, "any"), R("Hash_Known", ES, "keep"), R("Hash_ZeroHash", ES, "any"),
   R("Txs_EmptyList", ES, "keep"), R("Txs_Expired", ES, "any"), R("Txs_Unsigned", ES, "any"), R("Txs_NilElem", ES, "close"),
   RS("Txs_Many", ES, "keep", 31, 31),
+  \* signed, decodable transactions with absurd fields
+  R("Txs_WrongChain", ES, "any"), R("Txs_FarFuture", ES, "any"), R("Txs_UnknownType", ES, "any"), R("Txs_HugeAmount", ES, "any"),
+  R("Txs_GasLimitMax", ES, "any"), R("Txs_GasPriceZero", ES, "any"), R("Txs_SigZero", ES, "any"), R("Txs_SigShort", ES, "any"), R("Txs_ManySigs", ES, "any"),
+  RS("Txs_HugeMessage", ES, "any", 98, 98), R("Txs_Duplicate", ES, "any"), R("Txs_BadToName", ES, "any"),
+  R("Txs_DataGarbageJson", ES, "any"), R("Txs_AssetAbsurd", ES, "any"),
+  R("Txs_BoxEmpty", ES, "any"), R("Txs_BoxGarbageJson", ES, "any"), R("Txs_BoxNested", ES, "any"), R("Txs_BoxSubExpired", ES, "any"),
+  RD("Txs_BoxNullSub", ES, "any", 1, 1, "Dev_BoxNullSubTxPanics", "panic"),    \* box data {"subTxList":[null]}
   R("GetBlocks_FromGtTo", ES, "any"), R("GetBlocks_Beyond", ES, "keep"), R("GetBlocks_Range", ES, "keep"), R("GetBlocks_Wrap", ES, "any"),
   RD("GetBlocks_Huge", ES, "any", 1, 1, "Dev_GetBlocksRangeUnbounded", "alloc"),
   RD("GetBlocksCL_Huge", ES, "any", 1, 1, "Dev_GetBlocksRangeUnbounded", "alloc"),
-  R("GetBlocksCL_FromGtTo", ES, "any"),
+  R("GetBlocksCL_FromGtTo", ES, "any"), R("GetBlocksCL_Beyond", ES, "keep"), R("GetBlocksCL_Range", ES, "keep"), R("GetBlocksCL_Wrap", ES, "any"),
   R("Blocks_EmptyList", ES, "keep"), R("Blocks_NilBlock", ES, "any"),
   R("Blocks_OrphanMax", ES, "any"), R("Blocks_OrphanH0", ES, "any"), R("Blocks_OrphanH1", ES, "any"),
   R("Blocks_ChildUnsigned", ES, "any"), R("Blocks_ChildBadHeight", ES, "any"),
   R("Blocks_DeputyFuture", ES, "any"), R("Blocks_DeputyBeforeParent", ES, "any"),
   RD("Blocks_DeputyTimeTiny", ES, "any", 1, 1, "Dev_BlockTimeBelow1e7PanicsGetCorrectMiner", "panic"),
   RS("Blocks_DeputyHugeExtra", ES, "any", 98, 98), R("Blocks_DeputyBadTxRoot", ES, "any"), R("Blocks_DeputyPlausible", ES, "any"),
+  R("Blocks_EmptyHeader", ES, "close"), R("Blocks_ChildSigShort", ES, "any"), R("Blocks_ChildSigLong", ES, "any"), R("Blocks_DupInMsg", ES, "any"),
+  R("Blocks_DeputyGasMax", ES, "any"), R("Blocks_DeputyManyConfirms", ES, "any"), R("Blocks_DeputyAbsurdDeputyNodes", ES, "any"),
+  R("Blocks_DeputyLongDeputyRoot", ES, "any"), R("Blocks_DeputyTimeMax", ES, "any"), R("Blocks_DeputyBadTx", ES, "any"),
+  RD("Blocks_DeputyBoxNullSub", ES, "any", 1, 1, "Dev_BoxNullSubTxPanics", "panic"),
   RD("Blocks_Flood", ES, "any", 2121, 2121, "Dev_BlockCacheSelfDeadlock", "stuck"),
-  R("Confirm_Known", ES, "any"), R("Confirm_MaxHeight", ES, "any"),
+  R("Confirm_Known", ES, "any"), R("Confirm_MaxHeight", ES, "any"), R("Confirm_ZeroSig", ES, "any"), R("Confirm_DeputyKnown", ES, "any"), R("Confirm_DeputyUnknown", ES, "any"),
   RD("Confirm_Flood", ES, "any", 1, 1181, "Dev_ConfirmCacheSelfDeadlock", "stuck"),
   R("GetConfirms_Unknown", ES, "keep"), R("GetConfirms_MaxByHeight", ES, "keep"),
   R("Confirms_Unknown", ES, "any"), RS("Confirms_HugePack", ES, "any", 1309, 1309),
+  R("Confirms_EmptyPack", ES, "any"), R("Confirms_DeputyKnown", ES, "any"), RS("Confirms_DupPack", ES, "any", 66, 66), R("Confirms_MaxHeight", ES, "any"),
   R("DiscRes_HugeSizeHeader", ES, "close"),   \* RLP size headers announcing 2 GiB / 1 GiB inside a 40-byte payload
-  R("DiscReq_SeqMax", ES, "keep"), R("DiscRes_Invalid", ES, "any"), RS("DiscRes_Many", ES, "any", 291, 291) }
+  R("DiscReq_SeqMax", ES, "keep"), R("DiscRes_Invalid", ES, "any"), RS("DiscRes_Many", ES, "any", 291, 291),
+  \* node strings are what the node will later DIAL: well-formed lists with absurd entries
+  R("DiscRes_EmptyList", ES, "keep"), R("DiscRes_SelfId", ES, "any"), R("DiscRes_OffCurveId", ES, "any"), R("DiscRes_ZeroId", ES, "any"),
+  R("DiscRes_BadPort", ES, "any"), R("DiscRes_BadIp", ES, "any"), R("DiscRes_ManyAts", ES, "any"), R("DiscRes_Dup", ES, "any"),
+  RS("DiscRes_HugeString", ES, "any", 1024, 1024),
+  RD("DiscRes_NonHexId", ES, "any", 1, 1, "Dev_NodeStringNonHexIdPanics", "panic") }   \* 128 characters that are not hex digits
 
-ClassTable == PreRows \cup FrameRows \cup ProtoRows \cup EstRows
+ClassTable == HsRows \cup PreRows \cup OutRows \cup FrameRows \cup ProtoRows \cup EstRows
 
 ====
